@@ -122,13 +122,15 @@ const (
 )
 
 type c05RsvDef struct {
-	name        string
-	uid         types.UID
-	policy      schedulingv1alpha1.ReservationAllocatePolicy
-	allocOnce   *bool // nil = the API default (true)
-	home        string
-	assumeNodes []string
-	opts        [][]corev1.ResourceName // restricted-options variants; index 0 is the initial one; nil = no annotation
+	name          string
+	uid           types.UID
+	policy        schedulingv1alpha1.ReservationAllocatePolicy
+	allocOnce     *bool // nil = the API default (true)
+	home          string
+	assumeNodes   []string
+	opts          [][]corev1.ResourceName // restricted-options variants; index 0 is the initial one; nil = no annotation
+	optsJSON      []string
+	allocatedJSON string
 }
 
 func (d *c05RsvDef) isAllocOnce() bool { return d.allocOnce == nil || *d.allocOnce }
@@ -144,7 +146,31 @@ type c05PodDef struct {
 
 var c05Nodes = []string{"n1", "n2"}
 
-func c05Defs() ([]*c05RsvDef, []*c05PodDef) {
+// c05Defs returns the (immutable, shared) definitions.
+func c05Defs() ([]*c05RsvDef, []*c05PodDef) { return c05RsvDefs, c05PodDefs }
+
+var c05RsvDefs, c05PodDefs = c05MakeDefs()
+
+// annotation values rendered once (JSON marshalling per object dominated the replay cost otherwise)
+var c05AffinityJSON = func() string {
+	o := &corev1.Pod{}
+	_ = apiext.SetReservationAffinity(o, &apiext.ReservationAffinity{ReservationSelector: map[string]string{c05RsvLabel: "yes"}})
+	return o.Annotations[apiext.AnnotationReservationAffinity]
+}()
+
+func c05OptionsJSON(names []corev1.ResourceName) string {
+	o := &schedulingv1alpha1.Reservation{}
+	_ = apiext.SetReservationRestrictedOptions(o, &apiext.ReservationRestrictedOptions{Resources: names})
+	return o.Annotations[apiext.AnnotationReservationRestrictedOptions]
+}
+
+func c05AllocatedJSON(name string, uid types.UID) string {
+	o := &corev1.Pod{}
+	apiext.SetReservationAllocated(o, &metav1.ObjectMeta{Name: name, UID: uid})
+	return o.Annotations[apiext.AnnotationReservationAllocated]
+}
+
+func c05MakeDefs() ([]*c05RsvDef, []*c05PodDef) {
 	cpu, mem := corev1.ResourceCPU, corev1.ResourceMemory
 	rs := []*c05RsvDef{
 		{name: "r1", uid: "uid-r1", policy: schedulingv1alpha1.ReservationAllocatePolicyRestricted, allocOnce: ptr.To(false), home: "n1",
@@ -158,6 +184,16 @@ func c05Defs() ([]*c05RsvDef, []*c05PodDef) {
 		{name: "q1", uid: "uid-q1", cpu: 1, mem: 1, owner: true},
 		{name: "q2", uid: "uid-q2", cpu: 2, mem: 0, owner: true, affinity: true},
 		{name: "q3", uid: "uid-q3", cpu: 3, mem: 3, owner: false, tomb: true},
+	}
+	for _, d := range rs {
+		d.allocatedJSON = c05AllocatedJSON(d.name, d.uid)
+		for _, names := range d.opts {
+			if names == nil {
+				d.optsJSON = append(d.optsJSON, "")
+			} else {
+				d.optsJSON = append(d.optsJSON, c05OptionsJSON(names))
+			}
+		}
 	}
 	return rs, ps
 }
@@ -226,10 +262,12 @@ type c05Sys struct {
 	byUID map[types.UID]*c05Rsv
 	last  string // kind of the last op
 	res   *mc.Result
-	diag  []string
 	// evalCycles: run the scheduling-cycle oracle in every state that has a matchable reservation (not only where an
 	// exhausted allocate-once reservation exists)
 	evalAllCycles bool
+	ids           []string        // identities of the violations judge() returned (parallel to its result)
+	pre           map[string]bool // identities present before the last event
+	quiet         bool            // pre-state evaluation: no vacuity counting
 }
 
 func c05NewSys(res *mc.Result, ops []c05Op, evalAll bool) *c05Sys {
@@ -284,8 +322,8 @@ func (s *c05Sys) rsvObj(r *c05Rsv) *schedulingv1alpha1.Reservation {
 			Unschedulable:  r.unsched,
 		},
 	}
-	if names := d.opts[r.opt]; names != nil {
-		_ = apiext.SetReservationRestrictedOptions(o, &apiext.ReservationRestrictedOptions{Resources: names})
+	if d.opts[r.opt] != nil {
+		o.Annotations = map[string]string{apiext.AnnotationReservationRestrictedOptions: d.optsJSON[r.opt]}
 	}
 	switch r.phase {
 	case "pending":
@@ -316,11 +354,10 @@ func (s *c05Sys) podObj(p *c05Pod, node, rsvName string, phase corev1.PodPhase) 
 		o.Labels[c05OwnerLabel] = "yes"
 	}
 	if d.affinity {
-		_ = apiext.SetReservationAffinity(o, &apiext.ReservationAffinity{ReservationSelector: map[string]string{c05RsvLabel: "yes"}})
+		o.Annotations[apiext.AnnotationReservationAffinity] = c05AffinityJSON
 	}
 	if rsvName != "" {
-		r := s.rsv(rsvName)
-		apiext.SetReservationAllocated(o, &metav1.ObjectMeta{Name: r.def.name, UID: r.def.uid})
+		o.Annotations[apiext.AnnotationReservationAllocated] = s.rsv(rsvName).def.allocatedJSON
 	}
 	return o
 }
@@ -583,7 +620,7 @@ func c05BuildOps() []c05Op {
 						s.pl.DeleteNominatedReservePodOrReservation(p.obj) // frameworkExtenderImpl.RunReservePluginsReserve
 						if !status.IsSuccess() || st.assumed == nil || st.assumed.UID() != r.def.uid {
 							// the cache does not hold the reservation the events established: completeness alarms on its own
-							s.diag = append(s.diag, fmt.Sprintf("Reserve(%s on %s) did not assume: %v", pn, rn, status.Message()))
+							c05Count("diag_reserve_did_not_assume", 1)
 							p.cs = nil
 							return
 						}
@@ -617,8 +654,12 @@ func c05BuildOps() []c05Op {
 				apply: func(s *c05Sys) {
 					p := pod(s)
 					// PreBind patched the annotation first (that event is ignored: the pod is not assigned yet), then the
-					// binding set the node name
+					// binding set the node name; for q2 the informer delivers both changes merged into one update (the old
+					// object carries no annotation)
 					old := s.podObj(p, "", p.rsv, corev1.PodPending)
+					if p.def.affinity {
+						old = p.obj
+					}
 					p.obj = s.podObj(p, p.node, p.rsv, corev1.PodRunning)
 					s.ph.OnUpdate(old, p.obj)
 					p.phase, p.cs = "bound", nil
@@ -697,6 +738,16 @@ func (s *c05Sys) Apply(op int, check bool) (bool, []mc.Violation) {
 	if !o.enabled(s) {
 		return false, nil
 	}
+	if check {
+		// the last event of the history: remember which violations the predecessor state already had
+		s.ids, s.quiet = nil, true
+		s.judge()
+		s.quiet = false
+		s.pre = make(map[string]bool, len(s.ids))
+		for _, id := range s.ids {
+			s.pre[id] = true
+		}
+	}
 	o.apply(s)
 	s.last = o.kind
 	return true, nil
@@ -721,6 +772,13 @@ var c05CounterIdx = func() map[string]int {
 }()
 var c05CounterVals = make([]int64, len(c05CounterNames))
 
+func (s *c05Sys) count(name string, n int64) {
+	if s.quiet {
+		return
+	}
+	c05Count(name, n)
+}
+
 func c05Count(name string, n int64) {
 	i, ok := c05CounterIdx[name]
 	if !ok {
@@ -739,7 +797,16 @@ func c05FlushCounters(res *mc.Result) {
 
 // ---- oracle ----
 
-func (s *c05Sys) v(clause, what string) mc.Violation {
+// v builds a violation. Its identity (clause without the "|after:<event>" suffix + the object it is about) decides
+// whether the same violation was already present before the last event: inherited violations are not reported again
+// (the predecessor state reported them; every prefix of a BFS history is itself an explored transition), so a key
+// "...|after:<event>" names the event that introduced the violation.
+func (s *c05Sys) v(clause, obj, what string) mc.Violation {
+	id := clause
+	if i := strings.Index(clause, "|after:"); i >= 0 {
+		id = clause[:i]
+	}
+	s.ids = append(s.ids, id+"#"+obj)
 	return mc.Violation{Key: "C05|hist|" + clause, What: what + "\nstate: " + s.describe()}
 }
 
@@ -754,7 +821,21 @@ func c05Milli(rl corev1.ResourceList, n corev1.ResourceName) int64 {
 	return q.Value()
 }
 
+// Invariants reports the violations of the current state that were not already present before the last event.
 func (s *c05Sys) Invariants() []mc.Violation {
+	s.ids = nil
+	all := s.judge()
+	var out []mc.Violation
+	for i, v := range all {
+		if !s.pre[s.ids[i]] {
+			out = append(out, v)
+		}
+	}
+	return out
+}
+
+// judge evaluates every state-level oracle clause; s.ids[i] is the identity of the i-th returned violation.
+func (s *c05Sys) judge() []mc.Violation {
 	var viol []mc.Violation
 	c := s.cache
 	after := "|after:" + s.last
@@ -763,7 +844,7 @@ func (s *c05Sys) Invariants() []mc.Violation {
 	for uid, ri := range c.reservationInfos {
 		r := s.byUID[uid]
 		if r == nil || ri == nil {
-			viol = append(viol, s.v("primary-map|unknown-or-nil"+after, fmt.Sprintf("primary map entry %q is nil or was never added by an event", uid)))
+			viol = append(viol, s.v("primary-map|unknown-or-nil"+after, string(uid), fmt.Sprintf("primary map entry %q is nil or was never added by an event", uid)))
 			continue
 		}
 		want := s.refAllocated(r)
@@ -791,12 +872,12 @@ func (s *c05Sys) Invariants() []mc.Violation {
 			}
 		}
 		if nonzero {
-			c05Count("ledger_checked_with_assigned_pods", 1)
+			s.count("ledger_checked_with_assigned_pods", 1)
 			if len(s.assigned(r)) > 1 {
-				c05Count("ledger_checked_with_several_pods", 1)
+				s.count("ledger_checked_with_several_pods", 1)
 			}
 			if len(r.refNames()) < 2 {
-				c05Count("ledger_checked_with_a_masked_dimension", 1)
+				s.count("ledger_checked_with_a_masked_dimension", 1)
 			}
 		}
 		if len(diffs) > 0 {
@@ -806,12 +887,12 @@ func (s *c05Sys) Invariants() []mc.Violation {
 				// witness class: the reserved dimensions grew (restricted options changed) while pods were assigned
 				class = "ledger|reserved-dimensions-grew-while-pods-assigned"
 			}
-			viol = append(viol, s.v(class, fmt.Sprintf("reservation %s reports Allocated=%s but the pods currently assigned to it %v request %v in its reserved dimensions %v",
+			viol = append(viol, s.v(class, r.def.name+strings.Join(diffs, ","), fmt.Sprintf("reservation %s reports Allocated=%s but the pods currently assigned to it %v request %v in its reserved dimensions %v",
 				r.def.name, c05QL(ri.Allocated), c05PodNames(s.assigned(r)), want, c05Names(r.refNames()))))
 		}
 		// diagnostic: the code's own assigned set
 		if len(ri.AssignedPods) != len(s.assigned(r)) {
-			c05Count("diag_assigned_set_size_differs", 1)
+			s.count("diag_assigned_set_size_differs", 1)
 		}
 	}
 
@@ -823,14 +904,14 @@ func (s *c05Sys) Invariants() []mc.Violation {
 	for _, ix := range idx {
 		for node, set := range ix.m {
 			for uid := range set {
-				c05Count("index_entries_checked", 1)
+				s.count("index_entries_checked", 1)
 				ri, ok := c.reservationInfos[uid]
 				r := s.byUID[uid]
 				switch {
 				case !ok || ri == nil:
-					viol = append(viol, s.v("index-references-missing-reservation|"+ix.name+after, fmt.Sprintf("%s[%s] lists %s which is not in the primary map", ix.name, node, uid)))
+					viol = append(viol, s.v("index-references-missing-reservation|"+ix.name+after, node+string(uid), fmt.Sprintf("%s[%s] lists %s which is not in the primary map", ix.name, node, uid)))
 				case r == nil || r.placed != node:
-					viol = append(viol, s.v("index-lists-under-wrong-node|"+ix.name+after, fmt.Sprintf("%s[%s] lists %s which the events placed on %q", ix.name, node, uid, func() string {
+					viol = append(viol, s.v("index-lists-under-wrong-node|"+ix.name+after, node+string(uid), fmt.Sprintf("%s[%s] lists %s which the events placed on %q", ix.name, node, uid, func() string {
 						if r == nil {
 							return "?"
 						}
@@ -843,23 +924,23 @@ func (s *c05Sys) Invariants() []mc.Violation {
 
 	// (2b) the listings
 	checkListed := func(how, node string, ri *frameworkext.ReservationInfo) {
-		c05Count("listing_results_checked", 1)
+		s.count("listing_results_checked", 1)
 		if ri == nil {
-			viol = append(viol, s.v("listing-yields-nil|"+how+after, fmt.Sprintf("%s(%s) yields a nil reservation info", how, node)))
+			viol = append(viol, s.v("listing-yields-nil|"+how+after, node, fmt.Sprintf("%s(%s) yields a nil reservation info", how, node)))
 			return
 		}
 		r := s.byUID[ri.UID()]
 		if _, ok := c.reservationInfos[ri.UID()]; !ok || r == nil {
-			viol = append(viol, s.v("listing-yields-missing-reservation|"+how+after, fmt.Sprintf("%s(%s) yields %s which is not in the primary map", how, node, ri.UID())))
+			viol = append(viol, s.v("listing-yields-missing-reservation|"+how+after, node+string(ri.UID()), fmt.Sprintf("%s(%s) yields %s which is not in the primary map", how, node, ri.UID())))
 			return
 		}
 		if r.placed != node {
-			viol = append(viol, s.v("listing-yields-wrong-node|"+how+after, fmt.Sprintf("%s(%s) yields %s which the events placed on %q", how, node, r.def.name, r.placed)))
+			viol = append(viol, s.v("listing-yields-wrong-node|"+how+after, node+r.def.name, fmt.Sprintf("%s(%s) yields %s which the events placed on %q", how, node, r.def.name, r.placed)))
 		}
 	}
 	guard := func(how string, f func()) {
 		if ps := mc.Guard(f); ps != "" {
-			viol = append(viol, s.v("listing-panics|"+how+after, how+" panics: "+strings.SplitN(ps, "\n", 2)[0]))
+			viol = append(viol, s.v("listing-panics|"+how+after, "", how+" panics: "+strings.SplitN(ps, "\n", 2)[0]))
 		}
 	}
 	matchableListed := map[string]map[types.UID]bool{}
@@ -868,7 +949,7 @@ func (s *c05Sys) Invariants() []mc.Violation {
 	guard("ListAllNodes", func() { nodesTrue, nodesFalse = c.ListAllNodes(true), c.ListAllNodes(false) })
 	for _, n := range append(append([]string{}, nodesTrue...), nodesFalse...) {
 		if n != "n1" && n != "n2" {
-			viol = append(viol, s.v("listing-yields-unknown-node|ListAllNodes"+after, "ListAllNodes yields "+n))
+			viol = append(viol, s.v("listing-yields-unknown-node|ListAllNodes"+after, n, "ListAllNodes yields "+n))
 		}
 	}
 	for _, n := range c05Nodes {
@@ -901,7 +982,7 @@ func (s *c05Sys) Invariants() []mc.Violation {
 			guard("GetReservationInfoByPod", func() {
 				if ri := c.GetReservationInfoByPod(p.obj, n); ri != nil {
 					checkListed("GetReservationInfoByPod", n, ri)
-					c05Count("get_by_pod_hits", 1)
+					s.count("get_by_pod_hits", 1)
 				}
 			})
 		}
@@ -913,17 +994,17 @@ func (s *c05Sys) Invariants() []mc.Violation {
 		if !r.live() {
 			continue
 		}
-		c05Count("live_reservations_checked", 1)
+		s.count("live_reservations_checked", 1)
 		n := r.placed
 		if _, ok := c.reservationInfos[r.def.uid]; !ok {
-			viol = append(viol, s.v("live-reservation-missing-from-primary-map"+after, fmt.Sprintf("reservation %s is live on %s but not in the primary map", r.def.name, n)))
+			viol = append(viol, s.v("live-reservation-missing-from-primary-map"+after, r.def.name, fmt.Sprintf("reservation %s is live on %s but not in the primary map", r.def.name, n)))
 			continue
 		}
 		if !allListed[n][r.def.uid] {
-			viol = append(viol, s.v("live-reservation-not-listed-on-its-node"+after, fmt.Sprintf("reservation %s is live on %s but ListAvailableReservationInfosOnNode(%s, all) does not list it", r.def.name, n, n)))
+			viol = append(viol, s.v("live-reservation-not-listed-on-its-node"+after, r.def.name, fmt.Sprintf("reservation %s is live on %s but ListAvailableReservationInfosOnNode(%s, all) does not list it", r.def.name, n, n)))
 		}
 		if s.refMatchable(r) {
-			c05Count("matchable_reservations_checked", 1)
+			s.count("matchable_reservations_checked", 1)
 			inNodes := false
 			for _, x := range nodesTrue {
 				if x == n {
@@ -937,14 +1018,14 @@ func (s *c05Sys) Invariants() []mc.Violation {
 					// its pod left afterwards (forget / delete / terminated / moved)
 					class = "matchable-reservation-unreachable|allocate-once-freed-after-refresh-while-exhausted"
 				}
-				viol = append(viol, s.v(class, fmt.Sprintf("reservation %s is live, available and has %d assigned pods, but it is not reachable through the matchable listing of %s (ListAllNodes(true)=%v)", r.def.name, len(s.assigned(r)), n, nodesTrue)))
+				viol = append(viol, s.v(class, r.def.name, fmt.Sprintf("reservation %s is live, available and has %d assigned pods, but it is not reachable through the matchable listing of %s (ListAllNodes(true)=%v)", r.def.name, len(s.assigned(r)), n, nodesTrue)))
 			}
 		}
 	}
 	for n, set := range c.matchableOnNode {
 		for uid := range set {
 			if r := s.byUID[uid]; r != nil && !s.refMatchable(r) {
-				c05Count("diag_matchable_index_lists_unmatchable", 1)
+				s.count("diag_matchable_index_lists_unmatchable", 1)
 				_ = n
 			}
 		}
@@ -971,6 +1052,7 @@ func (s *c05Sys) Invariants() []mc.Violation {
 func (s *c05Sys) checkCycles(exhausted bool) []mc.Violation {
 	var viol []mc.Violation
 	ctx := context.TODO()
+	after := "|after:" + s.last
 	for _, p := range s.pods {
 		if p.phase != "pending" {
 			continue
@@ -980,15 +1062,15 @@ func (s *c05Sys) checkCycles(exhausted bool) []mc.Violation {
 		cs := framework.NewCycleState()
 		var st *fwktype.Status
 		if ps := mc.Guard(func() { _, _, st = s.pl.BeforePreFilter(ctx, cs, p.obj) }); ps != "" {
-			viol = append(viol, s.v("scheduling-path-panics|BeforePreFilter", ps))
+			viol = append(viol, s.v("scheduling-path-panics|BeforePreFilter"+after, p.def.name, ps))
 			continue
 		}
 		if !st.IsSuccess() {
-			c05Count("diag_before_prefilter_failed", 1)
+			s.count("diag_before_prefilter_failed", 1)
 			s.res.Diag("BeforePreFilter failed: " + st.Message())
 			continue
 		}
-		c05Count("scheduling_cycles_run", 1)
+		s.count("scheduling_cycles_run", 1)
 		state := getStateData(cs)
 		for _, node := range c05Nodes {
 			nrs := state.nodeReservationStates[node]
@@ -996,9 +1078,9 @@ func (s *c05Sys) checkCycles(exhausted bool) []mc.Violation {
 				continue
 			}
 			for _, m := range nrs.matchedOrIgnored {
-				c05Count("restore_path_matched", 1)
+				s.count("restore_path_matched", 1)
 				if !p.def.owner {
-					viol = append(viol, s.v("matched-non-owner|restore-path", fmt.Sprintf("the restore path matches pod %s (no owner label) to reservation %s", p.def.name, m.GetName())))
+					viol = append(viol, s.v("matched-non-owner|restore-path", p.def.name+m.GetName(), fmt.Sprintf("the restore path matches pod %s (no owner label) to reservation %s", p.def.name, m.GetName())))
 				}
 			}
 			ni, _ := s.hd.snapshot.NodeInfos().Get(node)
@@ -1010,28 +1092,35 @@ func (s *c05Sys) checkCycles(exhausted bool) []mc.Violation {
 					nominated, fst = s.pl.NominateReservation(ctx, cs, p.obj, node)
 				}
 			}); ps != "" {
-				viol = append(viol, s.v("scheduling-path-panics|Filter-Nominate", ps))
+				viol = append(viol, s.v("scheduling-path-panics|Filter-Nominate"+after, p.def.name+node, ps))
 				continue
 			}
 			if nominated == nil {
-				c05Count("cycle_nothing_nominated", 1)
+				s.count("cycle_nothing_nominated", 1)
 				continue
 			}
-			c05Count("cycle_nominated", 1)
+			s.count("cycle_nominated", 1)
 			r := s.byUID[nominated.UID()]
 			if r == nil {
-				viol = append(viol, s.v("nominated-unknown-reservation", "NominateReservation returns an unknown reservation "+string(nominated.UID())))
+				viol = append(viol, s.v("nominated-unknown-reservation", p.def.name+node, "NominateReservation returns an unknown reservation "+string(nominated.UID())))
 				continue
 			}
 			if !p.def.owner {
-				viol = append(viol, s.v("matched-non-owner|nominated", fmt.Sprintf("pod %s (no owner label) is nominated to reservation %s", p.def.name, r.def.name)))
+				viol = append(viol, s.v("matched-non-owner|nominated", p.def.name+r.def.name, fmt.Sprintf("pod %s (no owner label) is nominated to reservation %s", p.def.name, r.def.name)))
 			}
 			if r.def.isAllocOnce() && len(s.assigned(r)) > 0 {
 				via := "filtered-candidates"
 				if p.def.affinity && len(nrs.matchedOrIgnored) == 1 {
 					via = "single-candidate-of-a-pod-with-reservation-affinity"
 				}
-				viol = append(viol, s.v("allocate-once-nominated|NominateReservation|"+via, fmt.Sprintf("BeforePreFilter -> Filter(%s) -> NominateReservation nominates allocate-once reservation %s for pod %s although %v is already assigned to it (the matchable listing still yields it: matched=%d)",
+				// witness classes: the matchable listing was not refreshed since the pod was assigned (only reservation
+				// events refresh it) / it still lists the reservation although it was refreshed while exhausted
+				if r.refreshedWhileExhausted {
+					via += "|although-indexes-refreshed-while-exhausted"
+				} else {
+					via += "|indexes-not-refreshed-since-the-pod-was-assigned"
+				}
+				viol = append(viol, s.v("allocate-once-nominated|NominateReservation|"+via, p.def.name+r.def.name, fmt.Sprintf("BeforePreFilter -> Filter(%s) -> NominateReservation nominates allocate-once reservation %s for pod %s although %v is already assigned to it (the matchable listing still yields it: matched=%d)",
 					node, r.def.name, p.def.name, c05PodNames(s.assigned(r)), len(nrs.matchedOrIgnored))))
 			}
 		}
@@ -1046,22 +1135,22 @@ func (s *c05Sys) checkCycles(exhausted bool) []mc.Violation {
 				continue
 			}
 			if state.nodeReservationStates[r.placed] == nil {
-				c05Count("allocate_once_nominate_filter_skipped_no_cycle_state", 1)
+				s.count("allocate_once_nominate_filter_skipped_no_cycle_state", 1)
 				continue
 			}
 			var nst *fwktype.Status
 			if ps := mc.Guard(func() { nst = s.pl.FilterNominateReservation(ctx, cs, p.obj, rInfo, r.placed) }); ps != "" {
-				viol = append(viol, s.v("scheduling-path-panics|FilterNominateReservation", ps))
+				viol = append(viol, s.v("scheduling-path-panics|FilterNominateReservation"+after, p.def.name+r.def.name, ps))
 				continue
 			}
-			c05Count("allocate_once_nominate_filter_asked", 1)
+			s.count("allocate_once_nominate_filter_asked", 1)
 			if nst.IsSuccess() {
-				viol = append(viol, s.v("allocate-once-nominated|FilterNominateReservation", fmt.Sprintf("FilterNominateReservation(%s, %s) succeeds although %s is allocate-once and %v is assigned to it", p.def.name, r.def.name, r.def.name, c05PodNames(s.assigned(r)))))
+				viol = append(viol, s.v("allocate-once-nominated|FilterNominateReservation", p.def.name+r.def.name, fmt.Sprintf("FilterNominateReservation(%s, %s) succeeds although %s is allocate-once and %v is assigned to it", p.def.name, r.def.name, r.def.name, c05PodNames(s.assigned(r)))))
 			}
 		}
 	}
 	if exhausted {
-		c05Count("states_with_exhausted_allocate_once", 1)
+		s.count("states_with_exhausted_allocate_once", 1)
 	}
 	return viol
 }
@@ -1216,7 +1305,7 @@ func TestVerifC05Hist(t *testing.T) {
 	}
 	evalAll := env.Thorough()
 	b := &mc.BFS{Res: res, Env: env, New: func() mc.System { return c05NewSys(res, ops, evalAll) }, NumOps: len(ops),
-		OpName: func(i int) string { return ops[i].name }, MaxDepth: env.Pick(5, 7), Repeats: 0}
+		OpName: func(i int) string { return ops[i].name }, MaxDepth: env.Pick(6, 9), Repeats: 0}
 	b.Run()
 	res.Bounds["scheduling_cycle_oracle"] = map[bool]string{true: "every state with a matchable reservation", false: "every state with an exhausted allocate-once reservation"}[evalAll]
 	c05FlushCounters(res)
